@@ -583,18 +583,22 @@ class SrvAdapter:
             return before
 
     def _bin_frame(self, a):
-        if a['kind'] == 'hdr' and self.cfg.get('serializer') == 'msgpack':
+        if a['kind'] in ('hdr', 'hdrbad') and \
+                self.cfg.get('serializer') == 'msgpack':
             # a packet that CLAIMS to be a binary event: the msgpack
             # serializer never produces one, a hostile client can
             ptype = 5 if a['ty'] == 'BINARY_EVENT' else 6
             data = [a['ev']] if ptype == 5 else []
             return refcodec.mp_encode(ptype, a['ns'], None if a['id'] < 0
                                       else a['id'], data)[0]
-        if a['kind'] == 'hdr':
+        if a['kind'] in ('hdr', 'hdrbad'):
             ptype = 5 if a['ty'] == 'BINARY_EVENT' else 6
             id = None if a['id'] < 0 else a['id']
             data = [{'_placeholder': True, 'num': i}
                     for i in range(min(a['n'], 3))]
+            if a['kind'] == 'hdrbad':
+                # a placeholder that points outside the attachments
+                data[-1]['num'] = 7
             if ptype == 5:
                 data = [a['ev']] + data
             text = str(ptype) + str(a['n']) + '-'
@@ -800,7 +804,7 @@ class SrvAdapter:
                 'ev': p.data[0] if p.packet_type == 5 and isinstance(
                     p.data, list) and p.data and isinstance(p.data[0], str)
                 else '',
-                'owed': p.attachment_count,
+                'owed': p.attachment_count, 'bad': _bad_placeholders(p),
                 # (received attachments only: anything longer than the frames
                 # the client really sent is space reserved on its say-so)
                 'atts': toks(p.attachments) if len(p.attachments) <= 16
@@ -882,6 +886,21 @@ class SrvAdapter:
                         pass
         # strip indices so that the abstract value is small and canonical
         return sorted(found)
+
+
+def _bad_placeholders(p):
+    """Some placeholder of the half-received packet cannot be resolved."""
+    def walk(d):
+        if isinstance(d, list):
+            return any(walk(x) for x in d)
+        if isinstance(d, dict):
+            if d.get('_placeholder') and 'num' in d:
+                n = d['num']
+                return not (isinstance(n, int) and not isinstance(n, bool)
+                            and 0 <= n < p.attachment_count)
+            return any(walk(x) for x in d.values())
+        return False
+    return walk(p.data)
 
 
 # hostile frames of the exhaustive C12 configuration, by expected class
